@@ -39,7 +39,9 @@ NewRun(ev) ==
       refuse |-> refuse,
       \* source lines a diagnostic may cite (set of [line, text]); empty = not known to the harness
       offend |-> IF "offend" \in DOMAIN ev THEN {ev.offend[j] : j \in 1 .. Len(ev.offend)} ELSE {},
-      sawpos |-> FALSE, pos |-> << >>]
+      sawpos |-> FALSE, pos |-> << >>,
+      \* whether the re-invocations of the repeated instruction being executed are preceded by prompts: "" not seen yet
+      reppol |-> ""]
 
 \* a message citing a source line is pending after PRINT / INT 0 / INT 3 / unsupported AH
 Pending(kind, e, idx) == <<kind, idx, e.line, IF kind = "int3" THEN "" ELSE e.text>>
@@ -146,7 +148,13 @@ OnStep(r, ev) ==
              THEN V("promptframe", <<"the instruction after a prompt did not start from the state before it:", Explain(d.m, evx, Exec(d.m, ins, ev.idx))>>)
         ELSE TRUE
      /\ Check(r.msg = << >>, "banner", <<"message not shown", r.msg>>)
-     /\ run' = [r EXCEPT !.d = IF ev.out \in Outcomes THEN d2 ELSE [d EXCEPT !.phase = "done", !.outfree = TRUE], !.msg = msg]
+     \* DESIGN 7.10: a prompt before every re-invocation of a repeated instruction, or before none of them -- not before
+     \* some (seeded change C20-q: the re-invocation that finds CX = 0 lost its prompt, the others kept theirs)
+     /\ Check(~(d.rep /\ due) \/ r.reppol = "" \/ (r.reppol = "yes") = (d.phase = "invoke"), "prompt",
+              <<"prompts before the re-invocations of", ev.line, "at index", ev.idx, "so far:", r.reppol, "this one:", d.phase = "invoke">>)
+     /\ run' = [r EXCEPT !.d = IF ev.out \in Outcomes THEN d2 ELSE [d EXCEPT !.phase = "done", !.outfree = TRUE], !.msg = msg,
+                         !.reppol = IF ~(d.rep /\ due) THEN "" ELSE IF r.reppol # "" THEN r.reppol
+                                    ELSE IF d.phase = "invoke" THEN "yes" ELSE "no"]
 
 OnMessage(r, ev) ==
   /\ Check(r.msg # << >> /\ r.msg[1] = ev.kind /\ r.msg[2] = ev.idx, "banner", <<"unexpected message", ev.kind, ev.idx, "pending", r.msg>>)
